@@ -12,6 +12,9 @@ func init() {
 			{Name: "run-fragmenting-histories", Quick: 1500, Thorough: 80000, Run: c09RunHist},
 			{Name: "representation-tie-targets", Quick: 1500, Thorough: 60000, Run: c09Ties},
 			{Name: "threshold-cardinality-targets", Quick: 1500, Thorough: 60000, Run: func(c *Ctx) { thresholdTargets(c, false) }},
+			// many-way aggregates whose result chunks sit exactly on a representation threshold (C11's generator; every
+			// result must validate, which is this property's clause)
+			{Name: "aggregate-partitions-of-threshold-unions", Quick: 1000, Thorough: 40000, Run: c11Partitions},
 		},
 	})
 }
